@@ -227,10 +227,16 @@ class ExprMixin:
                     x = self.ev(v, fr)
                     if not (isinstance(x, bool) or (z3.is_expr(x) and z3.is_bool(x))):
                         raise NeedFork()
+                    if isinstance(x, bool):
+                        if x != is_and:          # False in an `and` / True in an `or`: Python stops here
+                            return x
+                        if acc is None and v is e.values[-1]:
+                            return x
+                        continue
                     x = B(x)
                     acc = x if acc is None else (z3.And(acc, x) if is_and else z3.Or(acc, x))
                     self.guards.append(x if is_and else z3.Not(x))
-                return z3.simplify(acc)
+                return z3.simplify(acc) if acc is not None else is_and
             except NeedFork:
                 fr.env.clear()
                 fr.env.update(snapshot[1])
@@ -245,10 +251,16 @@ class ExprMixin:
                     x = self.ev(v, fr)
                     if not (isinstance(x, bool) or (z3.is_expr(x) and z3.is_bool(x))):
                         raise NeedFork()
+                    if isinstance(x, bool):
+                        if x != is_and:          # False in an `and` / True in an `or`: Python stops here
+                            return x
+                        if acc is None and v is e.values[-1]:
+                            return x
+                        continue
                     x = B(x)
                     acc = x if acc is None else (z3.And(acc, x) if is_and else z3.Or(acc, x))
                     self.guards.append(x if is_and else z3.Not(x))
-                return z3.simplify(acc)
+                return z3.simplify(acc) if acc is not None else is_and
             finally:
                 del self.guards[n0:]
         # forking evaluation with Python's value-returning short circuit
@@ -725,7 +737,12 @@ class ExprMixin:
             from .extract import FuncInfo
             dummy = FuncInfo(cls.module, cls, ast.parse("def _c(): pass").body[0], [])
             if self._is_enum(cls) and any(n == attr for n, _ in cls.enum_members):
-                cache[key] = Obj(cls, {"_name_": attr, "value": self.ev(cls.attrs[attr], Frame(dummy, {}))})
+                vexpr = cls.attrs[attr]
+                if isinstance(vexpr, ast.Call) and ast.unparse(vexpr.func) in ("auto", "enum.auto"):
+                    val = [n for n, _ in cls.enum_members].index(attr) + 1      # enum.auto(): 1, 2, 3, ...
+                else:
+                    val = self.ev(vexpr, Frame(dummy, {}))
+                cache[key] = Obj(cls, {"_name_": attr, "value": val})
             else:
                 cache[key] = self.ev(cls.attrs[attr], Frame(dummy, {}))
         return cache[key]
